@@ -37,6 +37,30 @@ CHECKS = {
                      "plain text of three alphabets up to the bound. Every exported pair is replayed: the real Lexer must produce equal "
                      "(type, value) sequences on both texts.",
                 note="bounded alphabets/lengths/number of non-plain choices; program-level part (diagnostics under brace/bracket respelling) is checked with the Norm corpus"),
+    "C04": dict(ref="§4.4", tech="TLC model checking of Driver.tla (history family: OneVerdictPerFile, OKIffNoError, ExitZeroIffAllOK, FatalNamesFileAndFails, EmptySelectionClean) + CLI replay of every behaviour",
+                text="TLC explores main() as a state machine over every sequence of file classes (clean, notice, erroneous, unparsable, unparsable in #if) up to the bound, "
+                     "given as explicit paths or through a directory, in both formats, and checks the verdict/exit-status properties in every final state. Every explored "
+                     "behaviour is materialised and executed through the real command line; decoded verdict lines and exit status must equal the model's.",
+                note="class representatives from harness/corpus.py; exhaustive up to 3 (quick) / 4 (thorough) files, longer histories sampled"),
+    "C06": dict(ref="§4.6", tech="TLC (Driver.tla SharedStateRestored/PureVerdict; RuleOrder.tla over extracted priority tables) + replay of concrete histories against solo runs + listing permutations",
+                text="The model states that a file's verdict is a function of its class and that shared state is restored; RuleOrder.tla checks on the extracted tables that rule order "
+                     "cannot depend on the directory listing. All sequences over nine concrete files are run as one command line and as one library session; each file's findings "
+                     "must equal its solo findings; the rules directory listing is permuted in subprocesses.",
+                note="nine concrete files incl. a 95-deep nesting and three kinds of fatal error; sequences up to length 2 (quick) / 3 (thorough)"),
+    "C08": dict(ref="§4.8", tech="TLC check of the comparator laws on a transcription of Error.__lt__ (Report.tla) validated point-wise against the code + decoded CLI reports in three formats",
+                text="TLC checks on all pairs/triples of a small diagnostic domain that the transcribed comparator is a strict total order and lists diagnostics in ascending displayed "
+                     "position; the Python comparator is compared point-wise with the transcription on the whole domain. Reports of corpus and stress files are decoded from "
+                     "humanized, coloured and JSON output and checked for catalogue codes/texts, levels, positions inside the file, ascending order and equality of the formats.",
+                note="comparator domain 2 lines x 3 columns x 2 codes x highlight lists of length <= 2"),
+    "C15": dict(ref="§4.15", tech="TLC model checking of Driver.tla (tree family: SelectedExactly against the work-list-free definition Selected) + CLI replay on materialised trees",
+                text="TLC explores the work-list algorithm of main() over every directory tree up to the bound (look-alike suffixes, names with spaces and dots, a directory named "
+                     "sub.c, nesting, git-ignored files) and every argument list, with and without --use-gitignore, and checks that the analysed files are exactly the intended "
+                     "selection. A covering sample is materialised (git init + .gitignore where needed) and run through the real CLI.",
+                note="trees up to 3 nodes, argument lists up to 1 (quick) / 2 (thorough); hidden names and symlinks outside the domain"),
+    "C16": dict(ref="§4.16", tech="TLC enumeration of every option combination (Driver.tla, OptionsArePresentation) + CLI replay of each, findings compared with the default-option findings",
+                text="TLC enumerates format x colours x -o x debug x -R word (incl. near misses of CheckDefine) x file/--cfile/--filename for each file class; every combination is "
+                     "executed through the real CLI; decoded verdict and diagnostics must equal those under default options (minus the #define-value codes for -R CheckDefine).",
+                note="the model side is near-tautological (it is the statement); the weight is on the exhaustive replay"),
 }
 
 NOT_YET = {
